@@ -30,6 +30,10 @@ def check(model, status):
     n = len(model.vars)
     if n > MAXV:
         return
+    if n == 0:
+        # python-mip does not call CBC for a model without variables ("Model has no variables. Nothing to optimize.",
+        # status OTHER): whatever the library does next is its own doing, not a solver fault (D46)
+        return
     try:
         obj, oc = _lin(model.objective)
         cons = []
